@@ -107,7 +107,7 @@ class _EnvClock:
         return None
 
 
-def extract_scripts(fmt_arg=None, default_format="npy"):
+def extract_scripts(fmt_arg=None, default_format="npy", rounds=1):
     """All step scripts of the real update_image over every answer of the environment it consults (lock-file
     existence / age, clock): explored with symx; each alternative is a list of ops
     (probe, path, exists) | (unlink, path) | acquire | read | body | write | release."""
@@ -115,19 +115,19 @@ def extract_scripts(fmt_arg=None, default_format="npy"):
     seen = set()
 
     def h(ctx):
-        return extract_script(fmt_arg, default_format, env=True)
+        return extract_script(fmt_arg, default_format, env=True, rounds=rounds)
 
     for ctx, out in symx.explore(h, stats={}, max_paths=64, timeout_ms=20000):
         if not isinstance(out, list):
             raise HarnessError("update_image under a symbolic environment ended with %r" % (out,))
-        key = tuple((op[0],) + tuple(op[1:]) if op[0] != "body" else ("body",) for op in out)
+        key = tuple(tuple(op) for op in out)
         if key not in seen:
             seen.add(key)
             alts.append(out)
     return alts
 
 
-def extract_script(fmt_arg=None, default_format="npy", env=False):
+def extract_script(fmt_arg=None, default_format="npy", env=False, rounds=1):
     """Run the real update_image once; record the order of acquire / read / body / write / release and the lock path.
     env=True (under symx.explore): toasty.pyramid's os / time are environment stubs with symbolic answers."""
     log = []
@@ -166,8 +166,11 @@ def extract_script(fmt_arg=None, default_format="npy", env=False):
         else:
             os.makedirs = lambda *a, **k: None
         pio = RecPio("/scratch-not-created", default_format=default_format)
-        with pio.update_image(Pos(2, 1, 3), masked_mode=ImageMode.F32, default="masked", format=fmt_arg) as img:
-            log.append(("body", img))
+        # `rounds` consecutive updates of the same tile through the SAME PyramidIO object (one worker process meeting
+        # the tile again): state the object keeps between calls shows up as a different script for the later round
+        for r in range(rounds):
+            with pio.update_image(Pos(2, 1, 3), masked_mode=ImageMode.F32, default="masked", format=fmt_arg) as img:
+                log.append(("body", r))
     finally:
         filelock.SoftFileLock = saved
         tp.os = saved_os
@@ -177,28 +180,29 @@ def extract_script(fmt_arg=None, default_format="npy", env=False):
     return log
 
 
-def updater_ts(scripts, split_write=True):
+def updater_ts(scripts, split_write=True, rounds=1):
     """scripts[u] = list of ALTERNATIVE step lists of updater u (one per answer of the environment), each a list of
     (op, resource[, expected]).  One tile file; locks identified by path.  Which alternative an updater follows is a
     solver variable, constrained by its 'probe' steps: the lock file exists iff the lock is held at that moment."""
     ts = bmc.TS("update")
     U = len(scripts)
+    R = rounds
     scripts = [sc if sc and isinstance(sc[0], list) else [sc] for sc in scripts]
     locks = sorted({op[1] for alts in scripts for sc in alts for op in sc if op[0] in ("acquire", "release")})
     files = sorted({op[1] for alts in scripts for sc in alts for op in sc if op[0] in ("read", "write")})
     for li in range(len(locks)):
         ts.var("lock%d" % li, 3, 0)
     for fi in range(len(files)):
-        ts.var("file%d" % fi, U, 0)
+        ts.var("file%d" % fi, U * R, 0)
         ts.var("torn%d" % fi, 1, 0)
     ts.var("err_torn", 1, 0)
     ts.ends = []
     ts.alt = []
     ts.probe_guards = []          # (u, alt index, pc, guard(s)) of every environment probe
     for u, alts in enumerate(scripts):
-        ts.var("pc%d" % u, 5, 0)
-        ts.var("loc%d" % u, U, 0)
-        alt = z3.BitVec("alt%d" % u, 3)
+        ts.var("pc%d" % u, 6, 0)
+        ts.var("loc%d" % u, U * R, 0)
+        alt = z3.BitVec("alt%d" % u, 5)
         ts.param(alt, z3.ULT(alt, len(alts)))
         ts.alt.append(alt)
         ends = []
@@ -211,11 +215,11 @@ def updater_ts(scripts, split_write=True):
                 if kind == "acquire":
                     li = locks.index(r)
                     ts.t(lab % "acquire", "u%d" % u, (lambda at, li: (lambda s: z3.And(at(s), s["lock%d" % li] == 0)))(at, li),
-                         (lambda u, pc, li: (lambda s: {"pc%d" % u: bmc.bv(pc + 1, 5), "lock%d" % li: bmc.bv(u + 1, 3)}))(u, pc, li))
+                         (lambda u, pc, li: (lambda s: {"pc%d" % u: bmc.bv(pc + 1, 6), "lock%d" % li: bmc.bv(u + 1, 3)}))(u, pc, li))
                 elif kind == "release":
                     li = locks.index(r)
                     # releasing removes the marker file if it is still this updater's; a marker re-created by somebody else is removed too (SoftFileLock unlinks the path)
-                    ts.t(lab % "release", "u%d" % u, at, (lambda u, pc, li: (lambda s: {"pc%d" % u: bmc.bv(pc + 1, 5), "lock%d" % li: bmc.bv(0, 3)}))(u, pc, li))
+                    ts.t(lab % "release", "u%d" % u, at, (lambda u, pc, li: (lambda s: {"pc%d" % u: bmc.bv(pc + 1, 6), "lock%d" % li: bmc.bv(0, 3)}))(u, pc, li))
                 elif kind == "probe":
                     if r not in locks:
                         raise HarnessError("update_image probes %r, which is not a lock path of the model" % (r,))
@@ -223,36 +227,37 @@ def updater_ts(scripts, split_write=True):
                     want = bool(op[2])
                     ts.probe_guards.append((u, a, pc, (lambda li, want: (lambda s: (s["lock%d" % li] != 0) if want else (s["lock%d" % li] == 0)))(li, want)))
                     ts.t(lab % "probe", "u%d" % u, (lambda at, li, want: (lambda s: z3.And(at(s), (s["lock%d" % li] != 0) if want else (s["lock%d" % li] == 0))))(at, li, want),
-                         (lambda u, pc: (lambda s: {"pc%d" % u: bmc.bv(pc + 1, 5)}))(u, pc))
+                         (lambda u, pc: (lambda s: {"pc%d" % u: bmc.bv(pc + 1, 6)}))(u, pc))
                 elif kind == "unlink":
                     if r in locks:
                         li = locks.index(r)
-                        ts.t(lab % "unlink-lock", "u%d" % u, at, (lambda u, pc, li: (lambda s: {"pc%d" % u: bmc.bv(pc + 1, 5), "lock%d" % li: bmc.bv(0, 3)}))(u, pc, li))
+                        ts.t(lab % "unlink-lock", "u%d" % u, at, (lambda u, pc, li: (lambda s: {"pc%d" % u: bmc.bv(pc + 1, 6), "lock%d" % li: bmc.bv(0, 3)}))(u, pc, li))
                     elif r in files:
                         fi = files.index(r)
-                        ts.t(lab % "unlink-tile", "u%d" % u, at, (lambda u, pc, fi: (lambda s: {"pc%d" % u: bmc.bv(pc + 1, 5), "file%d" % fi: bmc.bv(0, U)}))(u, pc, fi))
+                        ts.t(lab % "unlink-tile", "u%d" % u, at, (lambda u, pc, fi: (lambda s: {"pc%d" % u: bmc.bv(pc + 1, 6), "file%d" % fi: bmc.bv(0, U * R)}))(u, pc, fi))
                     else:
                         raise HarnessError("update_image unlinks %r, which the model does not know" % (r,))
                 elif kind == "read":
                     fi = files.index(r)
                     ts.t(lab % "read", "u%d" % u, at,
-                         (lambda u, pc, fi: (lambda s: {"pc%d" % u: bmc.bv(pc + 1, 5), "loc%d" % u: s["file%d" % fi],
+                         (lambda u, pc, fi: (lambda s: {"pc%d" % u: bmc.bv(pc + 1, 6), "loc%d" % u: s["file%d" % fi],
                                                         "err_torn": z3.If(s["torn%d" % fi] == 1, bmc.bv(1, 1), s["err_torn"])}))(u, pc, fi))
                 elif kind == "body":
-                    ts.t(lab % "modify", "u%d" % u, at, (lambda u, pc: (lambda s: {"pc%d" % u: bmc.bv(pc + 1, 5), "loc%d" % u: s["loc%d" % u] | bmc.bv(1 << u, U)}))(u, pc))
+                    rd = int(r or 0)
+                    ts.t(lab % "modify", "u%d" % u, at, (lambda u, pc, rd: (lambda s: {"pc%d" % u: bmc.bv(pc + 1, 6), "loc%d" % u: s["loc%d" % u] | bmc.bv(1 << (u * R + rd), U * R)}))(u, pc, rd))
                 elif kind == "write":
                     fi = files.index(r)
-                    ts.t(lab % "write_begin", "u%d" % u, at, (lambda u, pc, fi: (lambda s: {"pc%d" % u: bmc.bv(pc + 1, 5), "torn%d" % fi: bmc.bv(1, 1)}))(u, pc, fi))
+                    ts.t(lab % "write_begin", "u%d" % u, at, (lambda u, pc, fi: (lambda s: {"pc%d" % u: bmc.bv(pc + 1, 6), "torn%d" % fi: bmc.bv(1, 1)}))(u, pc, fi))
                     pc += 1
                     at2 = (lambda u, pc, a, alt: (lambda s: z3.And(s["pc%d" % u] == pc, alt == a)))(u, pc, a, alt)
                     ts.t(lab % "write_end", "u%d" % u, at2,
-                         (lambda u, pc, fi: (lambda s: {"pc%d" % u: bmc.bv(pc + 1, 5), "torn%d" % fi: bmc.bv(0, 1), "file%d" % fi: s["loc%d" % u]}))(u, pc, fi))
+                         (lambda u, pc, fi: (lambda s: {"pc%d" % u: bmc.bv(pc + 1, 6), "torn%d" % fi: bmc.bv(0, 1), "file%d" % fi: s["loc%d" % u]}))(u, pc, fi))
                 else:
                     raise HarnessError("unknown step %r in the extracted update_image script" % (op,))
                 pc += 1
             ends.append(pc)
         ts.ends.append(ends)
-    ts.U, ts.files, ts.locks = U, files, locks
+    ts.U, ts.files, ts.locks, ts.R = U, files, locks, R
     ts.max_steps = sum(max(e) for e in ts.ends) + 1
     ts.done = lambda s, u: z3.Or(*[z3.And(ts.alt[u] == a, s["pc%d" % u] == e) for a, e in enumerate(ts.ends[u])])
     # an updater waiting at a probe whose expected answer is not the state of the world is an environment answer that
@@ -261,7 +266,7 @@ def updater_ts(scripts, split_write=True):
     return ts
 
 
-def replay(trace, n_updaters, fmt_args, old_clock=()):
+def replay(trace, n_updaters, fmt_args, old_clock=(), rounds=1):
     """Real update_image on real npy files in a scratch directory, threads driven by the solver's schedule.  The soft
     lock is a real marker file; for the updaters named in `old_clock` the clock toasty.pyramid sees is far ahead (every
     existing file looks old to them) — the environment answers the solver chose."""
@@ -366,11 +371,12 @@ def replay(trace, n_updaters, fmt_args, old_clock=()):
             S.local.name = "u%d" % u
             try:
                 pio = Pio(d, default_format="npy")
-                with pio.update_image(pos, masked_mode=ImageMode.F32, default="masked", format=fmt_args[u]) as img:
-                    S.op("modify")
-                    contrib = np.full((256, 256), np.nan, dtype=np.float32)
-                    contrib[u, :] = u + 1.0
-                    Image.from_array(contrib).update_into_maskable_buffer(img, slice(None), slice(None), slice(None), slice(None))
+                for r in range(rounds):
+                    with pio.update_image(pos, masked_mode=ImageMode.F32, default="masked", format=fmt_args[u]) as img:
+                        S.op("modify")
+                        contrib = np.full((256, 256), np.nan, dtype=np.float32)
+                        contrib[u * rounds + r, :] = u * rounds + r + 1.0
+                        Image.from_array(contrib).update_into_maskable_buffer(img, slice(None), slice(None), slice(None), slice(None))
             except mpmodel.Killed:
                 pass
             except Exception as e:
@@ -389,7 +395,7 @@ def replay(trace, n_updaters, fmt_args, old_clock=()):
         p = Pio(d, default_format="npy").tile_path(pos, makedirs=False)
         if os.path.exists(p):
             final = np.load(p)
-        present = [bool(final is not None and final[u, 0] == u + 1.0) for u in range(n_updaters)]
+        present = [bool(final is not None and final[k, 0] == k + 1.0) for k in range(n_updaters * rounds)]
     finally:
         filelock.SoftFileLock = saved
         tp.os = saved_os
@@ -399,17 +405,17 @@ def replay(trace, n_updaters, fmt_args, old_clock=()):
     return dict(drive=out, present=present, torn_reads=monitor["torn_reads"], errors=errors, locks_left=dict(held))
 
 
-def check_updaters(run, n):
-    name = "update[N=%d]" % n
+def check_updaters(run, n, rounds=1):
+    name = "update[N=%d]" % n if rounds == 1 else "update[N=%d,R=%d]" % (n, rounds)
     scripts = []
     for u in range(n):
-        alts = extract_scripts(fmt_arg=None if u % 2 == 0 else "npy")
-        scripts.append([[tuple(op) if op[0] != "body" else ("body", None) for op in log] for log in alts])
-    ts = updater_ts(scripts)
+        alts = extract_scripts(fmt_arg=None if u % 2 == 0 else "npy", rounds=rounds)
+        scripts.append([[tuple(op) for op in log] for log in alts])
+    ts = updater_ts(scripts, rounds=rounds)
     U = bmc.Unrolled(ts, ts.max_steps)
     run.extra.setdefault("models", {})[name] = dict(alternatives_by_environment=[[op[0] + (":%s" % op[2] if op[0] == "probe" else "") for op in sc] for sc in scripts[0]],
                                                       lock_paths=sorted(ts.locks), files=sorted(ts.files), steps=ts.max_steps)
-    full = (1 << n) - 1
+    full = (1 << (n * rounds)) - 1
     fin = U.final()
     fi0 = 0
     alldone = z3.And(*[ts.done(fin, u) for u in range(n)])
@@ -434,7 +440,7 @@ def check_updaters(run, n):
         elif r == "sat":
             trace = U.trace(m)
             oc = old_clock_of(m)
-            obs = replay(trace, n, [None if u % 2 == 0 else "npy" for u in range(n)], oc)
+            obs = replay(trace, n, [None if u % 2 == 0 else "npy" for u in range(n)], oc, rounds)
             lost = not all(obs["present"])
             torn = obs["torn_reads"] > 0
             stuck = obs["drive"][0] == "stuck"
@@ -443,8 +449,8 @@ def check_updaters(run, n):
             # on the real code as that torn read
             if lost or torn or (qn == "terminates" and stuck):
                 text = ("# interleaving found by the solver, replayed on the real PyramidIO.update_image with real files\n"
-                        "import sys\nsys.path.insert(0, %r)\nimport props.C10 as P\nobs = P.replay(%r, %d, %r, %r)\nprint(obs)\n"
-                        "sys.exit(1 if (not all(obs['present']) or obs['torn_reads']) else 0)\n") % (str(__import__("vlib.core").core.VERIF), trace, n, [None if u % 2 == 0 else "npy" for u in range(n)], oc)
+                        "import sys\nsys.path.insert(0, %r)\nimport props.C10 as P\nobs = P.replay(%r, %d, %r, %r, %d)\nprint(obs)\n"
+                        "sys.exit(1 if (not all(obs['present']) or obs['torn_reads']) else 0)\n") % (str(__import__("vlib.core").core.VERIF), trace, n, [None if u % 2 == 0 else "npy" for u in range(n)], oc, rounds)
                 run.violation(nm, "update_image:%s" % qn, "concurrent update_image: %s; real run under the solver's interleaving%s: contributions present=%s torn reads=%d" % (
                     what, (" (clock far ahead for %s, so an existing lock file looks old)" % ", ".join(oc)) if oc else "", obs["present"], obs["torn_reads"]),
                               text, "E3:bmc+detsched", queries=1, solver_s=dt)
@@ -456,14 +462,14 @@ def check_updaters(run, n):
     # (b) the SAME model without the lock does lose an update (the assertion can fail)
     r, m, dt = U.check(alldone)
     if r == "sat":
-        obs = replay(U.trace(m), n, [None if u % 2 == 0 else "npy" for u in range(n)], old_clock_of(m))
+        obs = replay(U.trace(m), n, [None if u % 2 == 0 else "npy" for u in range(n)], old_clock_of(m), rounds)
         run.replays += 1
         if all(obs["present"]) and not obs["errors"]:
-            run.ob("%s.twin" % name, "twin-sat", "E3:bmc+detsched", "a completing interleaving exists; the REAL update_image keeps all %d contributions under it" % n, queries=1, solver_s=dt)
+            run.ob("%s.twin" % name, "twin-sat", "E3:bmc+detsched", "a completing interleaving exists; the REAL update_image keeps all %d contributions under it" % (n * rounds), queries=1, solver_s=dt)
         else:
             run.error("%s.twin" % name, "real run under a completing model interleaving lost a contribution: %s" % (obs,))
     nolock = [[[op for op in sc if op[0] not in ("acquire", "release", "probe", "unlink")] for sc in alts][:1] for alts in scripts]
-    ts2 = updater_ts(nolock)
+    ts2 = updater_ts(nolock, rounds=rounds)
     U2 = bmc.Unrolled(ts2, ts2.max_steps)
     f2 = U2.final()
     r2, m2, dt2 = U2.check(z3.And(*[ts2.done(f2, u) for u in range(n)]), f2["file0"] != full)
@@ -472,14 +478,14 @@ def check_updaters(run, n):
 
 def check(run):
     run.uses(tp.PyramidIO.update_image, tp.PyramidIO.tile_path, tp.PyramidIO.read_image, tp.PyramidIO.write_image)
-    run.bound(updaters="2 (quick), 2 and 3 (thorough)", steps="acquire, read, modify, write-begin, write-end, release per updater; ALL interleavings (complete bound)",
+    run.bound(updaters="2 (quick), 2 and 3 (thorough)", rounds="each updater performs 1 or 2 consecutive updates of the tile through the same PyramidIO object (the script of every round is extracted from the real code)", steps="acquire, read, modify, write-begin, write-end, release per updater; ALL interleavings (complete bound)",
               lock_path="symbolic position (n <= 2) and format argument (CrossHair)")
     run.assume("filelock.SoftFileLock: acquire succeeds iff the lock file does not exist (atomic create-exclusive), release removes it (trusted)",
                "a write is not atomic (two steps); a read between them would observe a partial tile")
     run.outside("SoftFileLock's own implementation (stale locks after a crash, NFS semantics)", "more than 3 concurrent updaters")
     chx.run_conditions(run, os.path.join(HERE, "chx_C10.py"), [("chk_lock_path_is_function_of_pos", 150), ("chk_distinct_tiles_distinct_locks", 150), ("chk_update_order", 60)])
-    for n in ([2] if run.tier == "quick" else [2, 3]):
+    for n, rounds in ([(2, 1), (2, 2)] if run.tier == "quick" else [(2, 1), (2, 2), (3, 1), (3, 2)]):
         try:
-            check_updaters(run, n)
+            check_updaters(run, n, rounds)
         except HarnessError as e:
-            run.error("update[N=%d]" % n, e)
+            run.error("update[N=%d,R=%d]" % (n, rounds), e)
